@@ -6,6 +6,7 @@ import (
 	"fmt"
 	"os"
 	"path/filepath"
+	"regexp"
 	"sort"
 	"strings"
 	"sync"
@@ -15,21 +16,21 @@ import (
 )
 
 type OblResult struct {
-	Fn      string   `json:"fn"`
-	Name    string   `json:"name"`
-	Kind    string   `json:"kind"`
-	Tags    []string `json:"tags"`
-	Src     string   `json:"src"`
-	Pos     string   `json:"pos,omitempty"`
-	Status  string   `json:"status"`
-	Solver  string   `json:"solver,omitempty"`
-	TimeS   float64  `json:"time_s"`
-	Query   string   `json:"query,omitempty"`
-	Model   string   `json:"model,omitempty"`
-	Outputs map[string]string `json:"outputs,omitempty"`
-	ExpectSat  bool  `json:"expect_sat,omitempty"`
-	Abstracted bool  `json:"abstracted,omitempty"`
-	OK      bool     `json:"ok"`
+	Fn         string            `json:"fn"`
+	Name       string            `json:"name"`
+	Kind       string            `json:"kind"`
+	Tags       []string          `json:"tags"`
+	Src        string            `json:"src"`
+	Pos        string            `json:"pos,omitempty"`
+	Status     string            `json:"status"`
+	Solver     string            `json:"solver,omitempty"`
+	TimeS      float64           `json:"time_s"`
+	Query      string            `json:"query,omitempty"`
+	Model      string            `json:"model,omitempty"`
+	Outputs    map[string]string `json:"outputs,omitempty"`
+	ExpectSat  bool              `json:"expect_sat,omitempty"`
+	Abstracted bool              `json:"abstracted,omitempty"`
+	OK         bool              `json:"ok"`
 }
 
 type FnResult struct {
@@ -66,6 +67,7 @@ func main() {
 	noSolve := flag.Bool("nosolve", false, "generate queries only")
 	perReturn := flag.Bool("perreturn", false, "debug: one postcondition obligation per return statement")
 	only := flag.String("only", "", "only obligations whose name contains this")
+	fastF := flag.String("fast", "", "file with `fn-substring<TAB>obligation-regex` lines: matching obligations get a 3 s budget (known findings)")
 	modsetOf := flag.String("modset", "", "debug: print the computed modifies set of functions whose key contains this")
 	overlayF := flag.String("overlay", "", "JSON file mapping source paths to replacement files (mutation self-tests)")
 	flag.Parse()
@@ -108,6 +110,31 @@ func main() {
 	}
 	if err := e.loadPureList(filepath.Join(*verif, "contracts", "pure.txt")); err != nil {
 		fatal(err)
+	}
+	type fastRule struct {
+		fn string
+		re *regexp.Regexp
+	}
+	var fastRules []fastRule
+	if *fastF != "" {
+		if data, err := os.ReadFile(*fastF); err == nil {
+			for _, ln := range strings.Split(string(data), "\n") {
+				f := strings.SplitN(ln, "\t", 2)
+				if len(f) == 2 {
+					if re, err := regexp.Compile("^(" + f[1] + ")$"); err == nil {
+						fastRules = append(fastRules, fastRule{f[0], re})
+					}
+				}
+			}
+		}
+	}
+	isFast := func(fn, name string) bool {
+		for _, r := range fastRules {
+			if strings.Contains(strings.NewReplacer("(", "", ")", "", "*", "").Replace(fn), r.fn) && r.re.MatchString(name) {
+				return true
+			}
+		}
+		return false
 	}
 	e.perReturn = *perReturn
 	if *modsetOf != "" {
@@ -238,6 +265,9 @@ func main() {
 			if j.o.ExpectSat {
 				sr = Probe(file, 2)
 			} else {
+				if isFast(j.r.Fn, j.r.Name) {
+					to = 3
+				}
 				sr = Solve(file, to, true)
 			}
 			j.r.Status, j.r.Solver, j.r.TimeS, j.r.Model, j.r.Outputs = sr.Status, sr.Solver, sr.TimeS, sr.Model, sr.Outputs
